@@ -36,7 +36,7 @@ func reversed[T any](xs []T) []T {
 
 func c14Bundles(cfg *vh.Config) []bundleT {
 	rB := cfg.R.Fork("bundles")
-	nB := cfg.Scale(28, 300)
+	nB := cfg.Scale(28, 140)
 	bundles := make([]bundleT, nB)
 	for i := range bundles {
 		bundles[i] = genBundle(rB)
